@@ -203,6 +203,15 @@ def run_case(case: dict) -> dict:
                 include_derived_variables=idv, include_readouts=iro, include_surrogate_variables=isv, normalise=nv, concatenated=conc), cols, nv, conc)
     add_read(".variables", lambda: res.variables, variables + dvars + sur_vars + readouts, None, True)
     add_read(".fluxes", lambda: res.fluxes, rxn + sur_flux, None, True)
+    if len(variables) > 1:
+        # the same points as a result assembled by hand from stored frames whose (labelled) columns are in another order
+        from mxlpy.simulation import Simulation
+
+        perm = rng.sample(variables, len(variables))
+        res_perm = Simulation(model=res.model, raw_variables=[f[perm].copy() for f in raw], raw_parameters=[dict(p_) for p_ in res.raw_parameters])
+        add_read(".fluxes [re-assembled result, columns permuted]", lambda: res_perm.fluxes, rxn + sur_flux, None, True)
+        add_read(".variables [re-assembled result, columns permuted]", lambda: res_perm.variables, variables + dvars + sur_vars + readouts, None, True)
+        add_read("get_right_hand_side [re-assembled result, columns permuted]", lambda: res_perm.get_right_hand_side(concatenated=True), variables, None, True, "rhs")
     for inc in (True, False):
         for nv in rng.sample(norm_variants(), 2):
             conc = rng.random() < 0.6
